@@ -20,7 +20,11 @@ POOL = 14
 
 
 def abstract_of(draw):
-    opt, _ = realopt.build(draw)
+    """The specification's configuration of a draw: the block structure comes from shapes / max_preconditioner_dim / merging only,
+    so it is read from an optimizer built WITHOUT the draw's input-like attributes (requires_grad flags).  If the draw itself cannot
+    be constructed, the replay of its behaviours reports that (structure.construction_raised)."""
+    plain = {k: v for k, v in draw.items() if k not in ("frozen0", "toggle_rg")}
+    opt, _ = realopt.build(plain)
     return [realopt.abstract_group(opt, gi, g) for gi, g in enumerate(draw["groups"])]
 
 
@@ -196,8 +200,14 @@ def history_task(args):
     torch.set_num_threads(1)
     draw, events = args
     try:
-        r = replay.Runner(draw, numeric=False)
+        try:
+            r = replay.Runner(draw, numeric=False)
+        except Exception as ex:  # noqa - a valid configuration must construct
+            return [(0, "structure.construction_raised", "the optimizer constructs for this configuration", f"{type(ex).__name__}: {str(ex)[:160]}")], None, None
         mm = []
+        if events and [len(go) for go in next(e for e in events if e["ev"] == "Step")["outc"]] != [len(m) for m in r.meta]:
+            return [(0, "structure.blocks_per_group", [len(go) for go in next(e for e in events if e["ev"] == "Step")["outc"]],
+                     [len(m) for m in r.meta])], None, None
         for i, ev in enumerate(events):
             if ev["ev"] == "SetHyper":
                 r.do_sethyper(ev)
@@ -217,6 +227,8 @@ def history_task(args):
 def collect(ctx, tasks, results, validated, owns, kind, control=None):
     """Turn python-side mismatches and TLC rejections into violations of this property (if the clause is owned)."""
     other = 0
+    owns0 = owns
+    owns = lambda clause, p=None: clause.startswith("structure.") or owns0(clause, p)      # noqa: E731 - a wrong block structure concerns every property
     for (draw, beh, _), (mm, tr, err), val in zip(tasks, results, validated):
         if err:
             raise tlc.TLCMachineryError(f"replay worker crashed:\n{err}")
